@@ -529,6 +529,8 @@ structure HParse where
   aliases : List (String × Ann) := []
   ops : List HOp := []
   err : Option String := none
+  /-- functions whose BODY changes what a provider returns (in place, while the call is running): fid ↦ (provider, new mapping) -/
+  bodySets : List (String × String × Scope) := []
 
 def lookupAlias (al : List (String × Ann)) (k : String) : Option Ann :=
   match al with
@@ -584,8 +586,15 @@ def parseHStep (hp : HParse) (st : String) : HParse :=
     | some ps', some r' =>
       let selfP := pid.startsWith "self:"
       let provider := if pid == "-" then none else some (if selfP then (pid.drop 5).toString else pid)
+      let isSet := nested.startsWith "set:"
       let hf : HFunc := { provider, selfProvider := selfP || pid == "selfraw", isMethod := selfP, params := ps', ret := r',
-                          nested := if nested == "-" then none else some nested }
+                          nested := if nested == "-" || isSet then none else some nested }
+      -- `set:pid=scope` : the body updates provider `pid` before it returns
+      let hp := if isSet then
+          match ((nested.drop 4).toString).splitOn "=" with
+          | [p, sc] => { hp with bodySets := (fid, p, parseScope (sc.replace "," ";")) :: hp.bodySets.filter (fun x => x.1 != fid) }
+          | _ => hp
+        else { hp with bodySets := hp.bodySets.filter (fun x => x.1 != fid) }
       let hf := if pid == "selfraw" then { hf with provider := none, isMethod := false } else hf
       { hp with ops := hp.ops ++ [.decorate fid hf] }
     | _, _ => { hp with err := hp.err <|> some "bad-op" }
@@ -594,13 +603,21 @@ def parseHStep (hp : HParse) (st : String) : HParse :=
     -- nothing but the provider differs, and nothing is shared between the two (the model's state has no such component)
     let base := hp.ops.foldl (fun acc op => match op with | .decorate f d => if f == basefid then some d else acc | _ => acc) none
     match base with
-    | some d => { hp with ops := hp.ops ++ [.decorate newfid { d with provider := some pid }] }
+    | some d =>
+      let bs := match hp.bodySets.find? (fun x => x.1 == basefid) with
+        | some (_, p, σ) => (newfid, p, σ) :: hp.bodySets
+        | none => hp.bodySets
+      { hp with ops := hp.ops ++ [.decorate newfid { d with provider := some pid }], bodySets := bs }
     | none => { hp with err := hp.err <|> some "bad-op" }
   | ["C", fid, names, vals, ret] =>
     let ns := splitSemi names
     let vs := (splitSemi vals).map parseHValue
     let body := if ret == "!" then BodyResult.raises else if ret == "-" then .returns .none else .returns (parseHValue ret)
-    { hp with ops := hp.ops ++ [.call fid ((ns.zip vs).map fun (n, v) => (n.toList, v)) body] }
+    -- (a body that changes a provider: marked by a pseudo-operation carrying the function id; applied only if the body ran)
+    let extra : List HOp := match hp.bodySets.find? (fun x => x.1 == fid) with
+      | some (_, p, σ) => [.setScope ("@body@" ++ p) σ]
+      | none => []
+    { hp with ops := hp.ops ++ [.call fid ((ns.zip vs).map fun (n, v) => (n.toList, v)) body] ++ extra }
   | _ => { hp with err := hp.err <|> some "bad-op" }
 
 def showOut : Out → Option String
@@ -614,8 +631,19 @@ def opHist (steps : List String) : String :=
   match hp.err with
   | some e => "decor " ++ e
   | none =>
-    let (_, outs) := exec genAcc {} hp.ops
-    " ## ".intercalate (outs.filterMap showOut ++ ["state provsame=1 annsame=1"])
+    -- the model's `step`, operation by operation; a provider update made by a body takes place only if the body ran
+    let run := hp.ops.foldl (fun (acc : GState × List Out × Bool) op =>
+      let (st, outs, bodyRan) := acc
+      match op with
+      | .setScope p σ =>
+        if p.startsWith "@body@" then
+          if bodyRan then ((step genAcc st (.setScope (p.drop 6).toString σ)).1, outs, false) else (st, outs, false)
+        else let (st', o) := step genAcc st op; (st', outs ++ [o], false)
+      | _ =>
+        let (st', o) := step genAcc st op
+        let ran := match o with | .verdict c _ => c ≥ 1 | _ => false
+        (st', outs ++ [o], ran)) (({} : GState), [], false)
+    " ## ".intercalate (run.2.1.filterMap showOut ++ ["state provsame=1 annsame=1"])
 
 /-! ## specification side (independent oracle), printed after a tab -/
 
